@@ -54,6 +54,17 @@ var specs = map[string]*propSpec{
 			{Name: "events-go1.26", Flavour: "c10", Toolchain: "go1.26.8", Env: []string{"GODEBUG=clobberfree=1,asyncpreemptoff=1", "GOMAXPROCS=1"}, Quick: 800, Thorough: 50000, PerProc: 120, Progress: true, TimeoutS: 900},
 		},
 	},
+	"C06": {
+		ID:   "C06",
+		Rule: "one run = one history of 3-14 calls by one client: Encode/EncodeIndented/Marshal under option sets (EscapeHTML/ValidateString exercise the pooled buffer swap), EncodeInto a caller buffer whose geometry comes from the tape (prefix 0-32, capacity around/below/above the output size, junk in the spare capacity, capacity ending at a PROT_NONE guard page or followed by canaries), Node.MarshalJSON/Raw on raw/lazy/loaded/mutated nodes, Unmarshal([]byte), Decoder+CopyString, Get([]byte), stream Decode into RawMessage; after every call the caller scribbles over its input buffer and every result returned so far is compared with the private snapshot taken when it was returned; seeded pools poison spare capacity on Put; knobs: LimitBufferSize 0..1MiB with output sizes on both sides, Default{Encoder,Ast,Decoder}BufferSize 1..4096, pool miss rate; all histories distinct (fresh types), non-trivial = every run",
+		Assume: []string{
+			"only the stated direction is checked: sonic must not change bytes it returned or the caller's input; a caller writing into a returned slice is not part of the statement",
+			"reference for 'does not depend on the buffer / pool state' = the same value encoded by sonic immediately before in the same process",
+		},
+		Batches: []batch{
+			{Name: "history", Flavour: "plain", Quick: 60000, Thorough: 3000000, PerProc: 2000, Progress: true, TimeoutS: 600},
+		},
+	},
 	"C08": {
 		ID:   "C08",
 		Rule: "one run = 1-4 fresh dynamic types (reflect.StructOf etc., never seen by the process: first-use compilation happens inside the run) + callback types that yield mid-encode/mid-decode, 2-6 clients x 1-6 API calls (Marshal, MarshalString, MarshalIndent, EncodeInto, Unmarshal, UnmarshalString, Valid, Get, Pretouch with compile options), several clients sharing one type, program-cache capacity 2..4096 and pool hit/miss/steal decisions from the tape, injected callback panics in a quarter of the runs; non-trivial = more context switches than clients; distinct = distinct trace hash",
